@@ -184,7 +184,8 @@ def run(ctx):
         mode = ["program", "program+history", "history", "attr-rich"][i % 4]
         case = {}
         if mode in ("program", "program+history"):
-            case["prog"] = gen_program(r, budget=30)
+            force = ("rowpoly-call",) if i % 5 == 0 else ()
+            case["prog"] = gen_program(r, budget=30, kind="module" if force else None, force=force)
         if mode == "program" and r.random() < 0.5:
             case["md"] = gen_md(r)
         if mode == "program+history":
